@@ -631,7 +631,7 @@ class Proto:
         pk = self._payload_key(fn, pl)
         if pk is not None:
             return vget(st, pk)
-        if self.is_state_place(pl):
+        if self.is_state_place(pl) or (pl['p'] and all(p['k'] == 'deref' for p in pl['p']) and st.S is not None and self.is_state_expr(fn.expr_of_place(pl))):
             if st.S is None:
                 return ('qs', self.ALL, False)
             return ('qs', st.S, True)
@@ -758,6 +758,8 @@ class Proto:
             pl = rv['pl']
             if self.is_state_place(pl):
                 return ('disc', 'state')
+            if pl['p'] and all(p['k'] == 'deref' for p in pl['p']) and st.S is not None and self.is_state_expr(fn.expr_of_place(pl)):
+                return ('disc', 'state')      # through a reference temporary (`&core.state` handed to an inlined helper)
             l = self._root_local(fn, pl)
             if l is not None:
                 return ('disc', l)
